@@ -252,6 +252,28 @@ CLAIMED.update({
     },
 })
 
+CLAIMED.update({
+    "C16": {
+        "text": "For 30 of the 44 TL-B types the property names (all transaction phases and five of the seven description "
+                "kinds, account / storage types, block-header components, validator descriptors, catchain config; 87 types "
+                "in total incl. config parameters) a machine-checked theorem: for every well-typed value encoded per the "
+                "block.tlb layout, running the decision tree the tracer extracted from the library's deserialize method "
+                "returns every field with the encoded value and leaves exactly the rest. The theorem is generic (proved "
+                "once for the layout language); per type the traced tree is shown EQUAL to the compilation of the "
+                "hand-transcribed layout by computation, so a changed width, tag, signedness or field order breaks the "
+                "obligation. The trees are regenerated from the source on every run (concolic trace of the real code) and "
+                "run against the code on generated inputs. 10 further named types are traced and compared with committed "
+                "reference trees (no theorem); OutMsg, BlockInfo, BlkPrevInfo, ShardDescr cannot be traced and are not "
+                "covered.",
+        "design_ref": "DESIGN.md 4.16",
+        "technique": "Coq proof: generic correctness of compile (layout -> decision tree) w.r.t. the layout encoder, plus "
+                     "per-type tree equality by vm_compute over trees regenerated from the source by a concolic tracer; "
+                     "correspondence by extracted OCaml model",
+        "note": "87 theorems closed under the global context. Trusted: the tracer (fail-closed) and the transcription of "
+                "block.tlb. addr_var addresses and HashmapAugE types are outside the model.",
+    },
+})
+
 PENDING_REASON = "check not built yet in this round (design in DESIGN.md section 4); not claimed until it exists"
 
 
